@@ -482,8 +482,8 @@ def parse_anyURI(s, ver='1.0'):
         raise LexError('anyURI')
     if all(c in _URI_SAFE for c in s) and '[' not in s and ']' not in s and ':' not in s.split('/')[0].split('?')[0].split('#')[0]:
         return s
-    if all(c in _URI_SAFE for c in s) and '[' not in s and ']' not in s and s[:1] in _ASCII_LETTERS and \
-            all(c in _ASCII_LETTERS + _DIGITS + '+-.' for c in s.split(':')[0]) and '://' in s and \
+    if all(c in _URI_SAFE for c in s) and '[' not in s and ']' not in s and s[:1] in _ASCII_LETTERS and '://' in s and \
+            all(c in _ASCII_LETTERS + _DIGITS + '+-.' for c in s.split('://', 1)[0]) and \
             ':' not in s.split('://', 1)[1]:
         return s
     raise NoVerdict('anyURI')
@@ -746,8 +746,8 @@ def _next_day(y, mo, d):
         if mo > 12:
             mo = 1
             y += 1
-            if y == 0:
-                raise NoVerdict('year rollover at the era boundary')
+            if y == 0 or y > 9999:
+                raise NoVerdict('year rollover at the era boundary / beyond four digits')
     return y, mo, d
 
 
@@ -1048,7 +1048,7 @@ def self_test_types():
     assert is_valid('NCName', 'a‿b') is None and is_valid('NCName', '') is False
     assert parse('QName', 'xs:int') == ('Q', 'xs', 'int') and not is_valid('QName', ':a') and not is_valid('QName', 'a:') and not is_valid('QName', 'a:b:c')
     assert is_valid('anyURI', 'http://example.com/a%20b#f') is True and is_valid('anyURI', '%zz') is False and is_valid('anyURI', 'a#b#c') is False
-    assert is_valid('anyURI', 'a b') is None and is_valid('anyURI', '') is True
+    assert is_valid('anyURI', 'a b') is None and is_valid('anyURI', '') is True and is_valid('anyURI', 'http:://a/b') is None
     assert parse('token', '  a \t b ') == 'a b' and parse('normalizedString', 'a\tb') == 'a b' and parse('string', ' a\t') == ' a\t'
 
 
